@@ -28,7 +28,9 @@ struct GridGen {
     Rng& r; GEOSContextHandle_t h; Out* out; int span = 8;
     std::vector<IPt> pool;          // contact candidates (vertices and edge lattice points of the partner)
     std::vector<std::pair<IPt, IPt>> poolEdges;
+    std::vector<std::vector<IPt>> poolRings;   // the partner's rings / lines as vertex chains
     int contactPct = 0;
+    int walkPct = 0;                // opt-in: share of lines that walk along the partner's linework (set by C01/C02)
     GridGen(Rng& rr, GEOSContextHandle_t hh, Out* o) : r(rr), h(hh), out(o) {}
     void cnt(const std::string& k) { if (out) out->count(k); }
 
@@ -60,7 +62,8 @@ struct GridGen {
     GElem line() {
         GElem e; e.kind = 1; std::vector<IPt> ps;
         int mode = (int) r.below(100);
-        if (!poolEdges.empty() && mode < 20) {           // collinear sub/super segment of a partner edge
+        if (!poolRings.empty() && walkPct > 0 && r.chance(walkPct)) ps = walk();
+        if (ps.empty() && !poolEdges.empty() && mode < 20) {           // collinear sub/super segment of a partner edge
             auto ed = poolEdges[r.below(poolEdges.size())]; long dx = ed.second.x - ed.first.x, dy = ed.second.y - ed.first.y; long g = gcdl(dx, dy);
             if (g > 0) { long ux = dx / g, uy = dy / g; long a = r.range(-1, (int) g), b = r.range(0, (int) g + 1); if (a == b) b = a + 1;
                 ps.push_back(IPt{ed.first.x + a * ux, ed.first.y + a * uy}); ps.push_back(IPt{ed.first.x + b * ux, ed.first.y + b * uy}); cnt("contact_collinear_edge"); } }
@@ -73,6 +76,21 @@ struct GridGen {
         bool allEq = true; for (auto& p : ps) if (!(p == ps[0])) allEq = false;
         if (allEq) { ps.resize(2); ps[1] = IPt{ps[0].x + 1, ps[0].y}; }
         e.rings.push_back(ps); return e; }
+    // a chain lying in the partner's linework: starts at a lattice point of one edge, follows 0..3 vertices, ends on an edge
+    static IPt onEdge(const IPt& a, const IPt& b, long t, long g) { return IPt{a.x + (b.x - a.x) / g * t, a.y + (b.y - a.y) / g * t}; }
+    std::vector<IPt> walk() {
+        std::vector<IPt> ps; auto& rg = poolRings[r.below(poolRings.size())]; size_t m = rg.size(); if (m < 2) return ps;
+        bool closed = m >= 4 && rg[0] == rg[m - 1]; size_t ne = m - 1;
+        size_t i = r.below(ne); long g0 = gcdl(rg[i + 1].x - rg[i].x, rg[i + 1].y - rg[i].y); if (g0 == 0) return ps;
+        long t0 = r.range(0, (int) g0); ps.push_back(onEdge(rg[i], rg[i + 1], t0, g0));
+        int j = (int) r.below(4); size_t e = i;
+        for (int s = 0; s < j; s++) { size_t nx = e + 1; if (nx >= ne) { if (!closed) break; nx = 0; } if (!(rg[e + 1] == ps.back())) ps.push_back(rg[e + 1]); e = nx; }
+        long g1 = gcdl(rg[e + 1].x - rg[e].x, rg[e + 1].y - rg[e].y); if (g1 == 0) return ps.size() >= 2 ? ps : std::vector<IPt>{};
+        long lo = (e == i && ps.size() == 1) ? t0 + 1 : 1; if (lo > g1) { if (ps.size() >= 2) { cnt("line_boundary_walk"); return ps; } return {}; }
+        IPt q = onEdge(rg[e], rg[e + 1], r.range((int) lo, (int) g1), g1); if (!(q == ps.back())) ps.push_back(q);
+        if (ps.size() < 2) return {};
+        if (r.chance(50)) std::reverse(ps.begin(), ps.end());
+        cnt("line_boundary_walk"); return ps; }
     GElem zeroLine() { GElem e; e.kind = 1; IPt p = rpt(); e.rings.push_back({p, p}); cnt("line_zero_length"); return e; }
 
     static std::vector<IPt> hull(std::vector<IPt> p) {
@@ -157,8 +175,9 @@ struct GridGen {
         return g; }
 
     void setPartner(const GGeom& a, int pct) {
-        pool.clear(); poolEdges.clear(); contactPct = pct;
+        pool.clear(); poolEdges.clear(); poolRings.clear(); contactPct = pct;
         for (auto& e : a.elems) if (!e.empty) for (auto& rg : e.rings) {
+            if (e.kind >= 1 && rg.size() >= 2) poolRings.push_back(rg);
             for (auto& p : rg) pool.push_back(p);
             for (size_t i = 0; i + 1 < rg.size(); i++) { long dx = rg[i + 1].x - rg[i].x, dy = rg[i + 1].y - rg[i].y; long g = gcdl(dx, dy);
                 if (g > 0) { poolEdges.push_back({rg[i], rg[i + 1]}); for (long t = 1; t < g; t++) pool.push_back(IPt{rg[i].x + dx / g * t, rg[i].y + dy / g * t}); } } }
@@ -166,7 +185,7 @@ struct GridGen {
     // partner mode "strictly inside": every new vertex is a lattice point strictly inside one polygon of `a`
     // (no boundary contact) — exercises containment paths that never see a segment intersection
     bool setPartnerInterior(const GGeom& a) {
-        for (auto& e : a.elems) if (e.kind == 2 && !e.empty) { auto in = interiorPoints(e); if (in.size() >= 3) { pool = in; poolEdges.clear(); contactPct = 100; cnt("partner_strictly_inside"); return true; } }
+        for (auto& e : a.elems) if (e.kind == 2 && !e.empty) { auto in = interiorPoints(e); if (in.size() >= 3) { pool = in; poolEdges.clear(); poolRings.clear(); contactPct = 100; cnt("partner_strictly_inside"); return true; } }
         return false; }
     // partner mode "swallow a hole": the new geometry is a polygon around a hole of `a`, inside its shell
     bool holeSwallower(const GGeom& a, GGeom& out) {
@@ -176,6 +195,24 @@ struct GridGen {
             GElem q; q.kind = 2; q.rings.push_back({{x0 - 1, y0 - 1}, {x1 + 1, y0 - 1}, {x1 + 1, y1 + 1}, {x0 - 1, y1 + 1}, {x0 - 1, y0 - 1}});
             out = GGeom{}; out.container = 0; out.elems.push_back(q); cnt("partner_swallows_hole"); return true; }
         return false; }
+
+    // partner mode "partly covered": elements lying in the closure of `b` (chains in its linework, its vertices and edge points,
+    // interior lattice points of its polygons) plus, usually, one free element — the shape that separates covers/contains/within
+    // from their envelope and per-element shortcuts
+    GGeom partialCover(const GGeom& b, bool allowCollection) {
+        setPartner(b, 100); int keepWalk = walkPct; walkPct = 70;
+        for (auto& e : b.elems) if (e.kind == 2 && !e.empty) { auto in = interiorPoints(e); pool.insert(pool.end(), in.begin(), in.end()); }
+        GGeom g; bool hasArea = false; for (auto& e : b.elems) if (e.kind == 2 && !e.empty) hasArea = true;
+        if (pool.empty()) { walkPct = keepWalk; return geom(3, allowCollection, false); }
+        int n = r.range(1, 3); int k0 = (int) r.below(hasArea ? 3 : 2);
+        for (int i = 0; i < n; i++) { int k = allowCollection && r.chance(30) ? (int) r.below(hasArea ? 3 : 2) : k0; g.elems.push_back(elem(k)); }
+        if (r.chance(60)) { contactPct = r.chance(50) ? 0 : 30; walkPct = 0; g.elems.push_back(elem(allowCollection && r.chance(30) ? (int) r.below(3) : k0)); cnt("partial_cover_free_element");
+            if (r.chance(50)) std::swap(g.elems.front(), g.elems.back()); }
+        walkPct = keepWalk;
+        bool same = true; for (auto& e : g.elems) if (e.kind != g.elems[0].kind) same = false;
+        g.container = same ? (g.elems.size() == 1 && r.chance(50) ? 0 : 1) : 2;
+        if (g.container == 1 && g.elems[0].kind == 2 && !valid(g)) { g.elems.resize(1); g.container = 0; }
+        cnt("partner_partial_cover"); return g; }
 
     Xform xform() { Xform t; t.sym = (int) r.below(8);
         switch (r.below(4)) { case 0: break; case 1: t.tx = r.range(-100, 100); t.ty = r.range(-100, 100); break;
